@@ -1652,12 +1652,6 @@ def check_C03(tier, seed, replay):
         build_rounds += 1
         live = [g for g in gs if g.id not in dropped]
         cdir, _ = vlib.build_corpus("types", tier, seed, grammars=live)
-        # (the corpus cache key does not know about dropped members: force a rewrite)
-        if dropped:
-            import shutil
-            shutil.rmtree(cdir)
-            os.remove(os.path.join(d, "corpus.key"))
-            cdir, _ = vlib.build_corpus("types", tier, seed, grammars=live)
         cd = vlib.materialise_crate("types", tier, cdir)
         ok, err, binp = vlib.cargo_build(cd)
         front = {}
@@ -1675,7 +1669,7 @@ def check_C03(tier, seed, replay):
         if ok:
             break
         # rustc's stderr as blocks (one per diagnostic); a block belongs to the grammars whose files it points into
-        blocks = re.split(r"\n(?=error)", err)
+        blocks = re.split(r"\n(?=error|warning|note: |help: |   Compiling |For more information)", err)
         per = {}
         for b in blocks:
             if not b.startswith("error"):
